@@ -74,30 +74,32 @@ Print Assumptions C05_delete_recreate_linearizable.
    initial value plus the contributions stored so far: +1 for a push that has stored, -1 for a pop
    that has stored (eff).  No acknowledged update is lost or applied twice; once every command has
    replied, the key holds its initial value plus the pushes acknowledged with a length minus the pops
-   acknowledged with an element.  DEL, LLEN and LPOPRPUSH are not covered by this theorem (forced
-   schedules and the pushes-only theorem above cover them), nor are expired keys. *)
+   acknowledged with an element.  "supported" also admits LPOPRPUSH a b between two different keys (it
+   contributes -1 to a once its pop is stored and +1 to b once its push is stored: C07).  DEL and LLEN are
+   not covered by this theorem (forced schedules and the pushes-only theorem above cover them), nor are
+   expired keys. *)
 Theorem C05_writers_lose_no_update : forall vals cmds sched,
-  writers_only cmds -> (forall kv, In kv vals -> 0 <= snd kv) ->
+  supported cmds -> (forall kv, In kv vals -> 0 <= snd kv) ->
   let s := run_micro sched (init_state vals cmds) in
   forall k, cur0 k s = cur0 k (init_state vals cmds) + asum (eff k) (ths s).
-Proof. exact writers_conserve. Qed.
+Proof. exact supported_conserve. Qed.
 Print Assumptions C05_writers_lose_no_update.
 
 Theorem C05_writers_final_value : forall vals cmds sched,
-  writers_only cmds -> (forall kv, In kv vals -> 0 <= snd kv) ->
+  supported cmds -> (forall kv, In kv vals -> 0 <= snd kv) ->
   let s := run_micro sched (init_state vals cmds) in
   (forall t x, In (t, x) (ths s) -> exists rp, t_pc x = PDone rp) ->
   forall k, cur0 k s = cur0 k (init_state vals cmds) + count_th (acked_push k) (ths s) - count_th (acked_pop k) (ths s).
-Proof. exact writers_conserve_when_done. Qed.
+Proof. exact supported_conserve_when_done. Qed.
 Print Assumptions C05_writers_final_value.
 
 (* what carries it: whoever has loaded a value holds the record exclusively, the record is the one the
    index holds for the key and is not unlinked, and the loaded value is still current *)
 Theorem C05_loaded_record_is_current : forall vals cmds sched t x r tmp,
-  writers_only cmds -> (forall kv, In kv vals -> 0 <= snd kv) ->
+  supported cmds -> (forall kv, In kv vals -> 0 <= snd kv) ->
   let s := run_micro sched (init_state vals cmds) in
   nget t (ths s) = Some x -> t_pc x = PLoaded r tmp false ->
-  exists k, wkey (t_cmd x) = Some k /\ nget k (ix s) = Some r /\ r_w (get_rec r s) = Some t /\
+  exists k, first_key (t_cmd x) = Some k /\ nget k (ix s) = Some r /\ r_w (get_rec r s) = Some t /\
             r_unl (get_rec r s) = false /\ tmp = r_val (get_rec r s).
 Proof. exact loaded_record_is_current. Qed.
 Print Assumptions C05_loaded_record_is_current.
@@ -107,11 +109,11 @@ Print Assumptions C05_loaded_record_is_current.
    (stale pointer, unlink, re-creation, two creators) are taken *)
 Example C05_general_nonvacuous :
   let cmds := [Pop 1; Push 1; Pop 1; Push 2; Push 2]%nat in
-  writers_only cmds /\ (forall kv, In kv [(1%nat, 1)] -> 0 <= snd kv) /\
+  supported cmds /\ (forall kv, In kv [(1%nat, 1)] -> 0 <= snd kv) /\
   let s := run_micro [1;0;0;0;0;0;0;0;1;1;2;2;2;2;3;4;3;4;3;4;3;4;3;4;3;4;3;4;1;1;1;1;1;1;1;1;2;2;2;2;3;4;3;4;2;2;2]%nat (init_state [(1%nat, 1)] cmds) in
   reply_of 0 s = Some 1 /\ reply_of 1 s = Some 1 /\ reply_of 2 s = Some 1 /\ reply_of 3 s = Some 1 /\ reply_of 4 s = Some 2 /\
   cur0 1 s = 0 /\ key_val 1 s = None /\ cur0 2 s = 2.
 Proof.
-  split; [intros c Hc; cbn in Hc; repeat (destruct Hc as [<-|Hc]; [discriminate|]); destruct Hc|].
+  split; [intros c Hc; cbn in Hc; repeat (destruct Hc as [<-|Hc]; [exact I|]); destruct Hc|].
   split; [intros kv [<-|[]]; cbn; lia|]. vm_compute. repeat split; reflexivity.
 Qed.
